@@ -185,6 +185,15 @@ def run_model_case(H, form_kind, n_extra, ickind, tvar_unused=None):
     elif ickind == 'lag':
         m.AddInitialCondition('A', 'LAG_x', '7.5')
         icexp = ('A__LAG_x', 7.5)
+    elif ickind == 'precise':
+        a.AddInitialCondition('x', 1234.56789)
+        icexp = ('A__x', 1234.56789)
+    elif ickind == 'third':
+        m.AddInitialCondition('A', 'u', 1. / 3.)
+        icexp = ('A__u', 1. / 3.)
+    elif ickind == 'big':
+        m.AddInitialCondition('A', 'LAG_x', 1e9 + 7)
+        icexp = ('A__LAG_x', 1e9 + 7)
     m.MaxTime = H
     must_reject = n < H + 1
     err = None
@@ -277,7 +286,7 @@ def run_unit(unit, tier):
         H = unit['H']
         for form_kind in ('str', 'list', 'tuple'):
             for extra in (-1, 0, 3):
-                for ic in ('none', 'sector', 'model', 'lag'):
+                for ic in ('none', 'sector', 'model', 'lag', 'precise', 'third', 'big'):
                     dig.add(('model', H, form_kind, extra, ic))
                     outcome, viols = run_model_case(H, form_kind, extra, ic)
                     res['evaluations'] += 1
